@@ -5,6 +5,7 @@ import ast, itertools
 
 from .core import ( rule, Result, AnalysisError, dotted, call_name, is_call_to, names_in, attrs_in, walk_no_nested,
                     norm_text, dotted_in, stmt_of, pmatch, pfind, txt )
+from .core import Matcher
 from .fold import fold, try_fold, NoFold
 from .cfg import CFG, INF
 from . import spec
@@ -990,6 +991,43 @@ def _inside( src, node, kinds, stop ):
     return None
 
 
+def server_roles( fn ):
+    """local names of a connection handler (enip_srv_tcp / enip_srv_udp) by ROLE, discovered from the constructs that define them:
+    machine = the `with parser.enip_machine( ... ) as <m>` variable; run = the <m>.run( source=<s>, data=<d> ) call; engine = the variable the
+    run (possibly under contextlib.closing) is bound to / iterated; msg = what network.recv*/ is assigned to; stats, connkey = stats_for()"""
+    r = {}
+    for w in ast.walk( fn ):
+        if isinstance( w, ast.With ):
+            for it in w.items:
+                if is_call_to( it.context_expr, 'parser.enip_machine', 'enip_machine' ) and isinstance( it.optional_vars, ast.Name ):
+                    r['machine'] = it.optional_vars.id
+    if 'machine' not in r:
+        for a in ast.walk( fn ):
+            if isinstance( a, ast.Assign ) and is_call_to( a.value, 'parser.enip_machine', 'enip_machine' ) and isinstance( a.targets[0], ast.Name ):
+                r['machine'] = a.targets[0].id
+    for c in ast.walk( fn ):
+        if isinstance( c, ast.Call ) and isinstance( c.func, ast.Attribute ) and c.func.attr == 'run' and dotted( c.func.value ) == r.get( 'machine' ):
+            kw = { k.arg: k.value for k in c.keywords }
+            r['run'] = c
+            if isinstance( kw.get( 'source' ), ast.Name ): r['source'] = kw['source'].id
+            if isinstance( kw.get( 'data' ), ast.Name ): r['data'] = kw['data'].id
+    for w in ast.walk( fn ):
+        if isinstance( w, ast.With ):
+            for it in w.items:
+                if r.get( 'run' ) is not None and any( x is r['run'] for x in ast.walk( it.context_expr )) and isinstance( it.optional_vars, ast.Name ):
+                    r['engine'] = it.optional_vars.id
+        if isinstance( w, ast.Assign ) and r.get( 'run' ) is not None and any( x is r['run'] for x in ast.walk( w.value )) and isinstance( w.targets[0], ast.Name ):
+            r['engine'] = w.targets[0].id
+        if isinstance( w, ast.Assign ) and is_call_to( w.value, 'network.recv', 'network.recvfrom', 'recv', 'recvfrom' ):
+            t = w.targets[0]
+            if isinstance( t, ast.Name ): r['msg'] = t.id
+            elif isinstance( t, ast.Tuple ) and isinstance( t.elts[0], ast.Name ): r['msg'] = t.elts[0].id
+        if isinstance( w, ast.Assign ) and is_call_to( w.value, 'stats_for' ) and isinstance( w.targets[0], ast.Tuple ) and len( w.targets[0].elts ) == 2 \
+           and all( isinstance( e, ast.Name ) for e in w.targets[0].elts ):
+            r['stats'], r['connkey'] = ( e.id for e in w.targets[0].elts )
+    return r
+
+
 @rule( 'P-ONE', props=( 'C06', 'C02' ), floor=6 )
 def p_one( ctx ):
     """server connection loop: per received frame exactly one enip_process, at most one send, send only for a truthy result, strictly sequential"""
@@ -1004,8 +1042,12 @@ def p_one( ctx ):
         cfg = CFG( fn )
         h, first, backs = _loop_nodes( cfg, loop )
         proc_param = 'enip_process'
+        roles = server_roles( fn )
+        DATA = roles.get( 'data' )
+        if DATA is None:
+            raise AnalysisError( '%s: the per-frame data artifact ( <machine>.run( ..., data=<name> )) not found' % qn )
         acts = [ n for n in cfg.nodes if n.stmt is not None and n.kind in ( 'stmt', 'test' ) and any(
-            is_call_to( c, proc_param ) and any( k.arg == 'data' and dotted( k.value ) == 'data' for k in c.keywords )
+            is_call_to( c, proc_param ) and any( k.arg == 'data' and dotted( k.value ) == DATA for k in c.keywords )
             for c in ast.walk( n.expr if n.kind == 'test' else n.stmt ) if isinstance( c, ast.Call )) ]
         if not acts:
             res.bad( src, fn, qn, 'enip_process( addr, data=data ) is never called: requests are not acted upon' )
@@ -1056,7 +1098,7 @@ def p_one( ctx ):
                 res.bad( src, s_.stmt, s_.stmt, 'the send is not conditioned on the result of enip_process', func=qn )
             # and the payload sent is the encoding of this iteration's response
             enc = [ n for n in cfg.nodes if n.kind == 'stmt' and isinstance( n.stmt, ast.Assign ) and is_call_to( n.stmt.value, 'parser.enip_encode', 'enip_encode' ) ]
-            if enc and pmatch( enc[0].stmt.value, 'parser.enip_encode( data.response.enip )' ) and cfg.must_pass( first[0], s_, enc, correlated=False ):
+            if enc and pmatch( enc[0].stmt.value, 'parser.enip_encode( %s.response.enip )' % DATA ) and cfg.must_pass( first[0], s_, enc, correlated=False ):
                 res.ok( src, s_.stmt, '%s: sent bytes = enip_encode( data.response.enip ) of this iteration' % qn )
             else:
                 res.bad( src, s_.stmt, s_.stmt, 'the reply sent must be enip_encode( data.response.enip ) computed in the same iteration', func=qn )
@@ -1072,7 +1114,7 @@ def p_one( ctx ):
             if isinstance( c, ast.Call ) and ( call_name( c ).split( '.' )[-1] in ( 'Thread', 'start_new_thread', 'Queue', 'submit', 'apply_async', 'Process' )):
                 res.bad( src, c, c, 'the connection handler must process frames strictly sequentially', func=qn )
         # `data` is a fresh artifact per iteration
-        fresh = [ n for n in cfg.nodes if n.kind == 'stmt' and isinstance( n.stmt, ast.Assign ) and dotted( n.stmt.targets[0] ) == 'data' and is_call_to( n.stmt.value, 'dotdict' ) ]
+        fresh = [ n for n in cfg.nodes if n.kind == 'stmt' and isinstance( n.stmt, ast.Assign ) and dotted( n.stmt.targets[0] ) == DATA and is_call_to( n.stmt.value, 'dotdict' ) ]
         if fresh and all( cfg.must_pass( first[0], a, fresh, correlated=False ) for a in acts ):
             res.ok( src, fresh[0].stmt, '%s: a fresh data artifact per frame' % qn )
         else:
@@ -1087,7 +1129,12 @@ def p_act( ctx ):
     src = ctx.src( MAIN )
     fn = src.get( 'enip_srv_tcp' )
     # the only other enip_process call is the empty-data clean-up in an exception handler that re-raises
-    others = [ c for c in ast.walk( fn ) if is_call_to( c, 'enip_process' ) and not any( k.arg == 'data' and dotted( k.value ) == 'data' for k in c.keywords ) ]
+    roles = server_roles( fn )
+    for need in ( 'machine', 'source', 'data', 'engine', 'msg', 'stats' ):
+        if need not in roles:
+            raise AnalysisError( 'enip_srv_tcp: role %r not found (machine.run( source=, data= ) under closing, network.recv, stats_for)' % need )
+    MACHINE, SOURCE, DATA, ENGINE, MSG, STATS = ( roles[k] for k in ( 'machine', 'source', 'data', 'engine', 'msg', 'stats' ))
+    others = [ c for c in ast.walk( fn ) if is_call_to( c, 'enip_process' ) and not any( k.arg == 'data' and dotted( k.value ) == DATA for k in c.keywords ) ]
     for c in others:
         h = _inside( src, c, ( ast.ExceptHandler, ), fn )
         empty = any( k.arg == 'data' and is_call_to( k.value, 'dotdict' ) and not k.value.args and not k.value.keywords for k in c.keywords )
@@ -1096,15 +1143,15 @@ def p_act( ctx ):
         else:
             res.bad( src, c, c, 'enip_process may only be called with the parsed frame, or with empty data from the failure handler' )
     # frame complete: the engine loop only `continue`s or receives; nothing in it stores into data or calls the processor
-    loop = [ n for n in ast.walk( fn ) if isinstance( n, ast.For ) and dotted( n.iter ) == 'engine' ]
+    loop = [ n for n in ast.walk( fn ) if isinstance( n, ast.For ) and dotted( n.iter ) == ENGINE ]
     if len( loop ) != 1:
         raise AnalysisError( 'enip_srv_tcp: frame-parsing loop `for ... in engine` not found' )
     withs = [ w for w in ast.walk( fn ) if isinstance( w, ast.With ) and any(
-        is_call_to( it.context_expr, 'contextlib.closing' ) and it.context_expr.args and is_call_to( it.context_expr.args[0], 'machine.run' ) for it in w.items ) ]
+        is_call_to( it.context_expr, 'contextlib.closing' ) and it.context_expr.args and is_call_to( it.context_expr.args[0], MACHINE + '.run' ) for it in w.items ) ]
     if withs:
         run = withs[0].items[0].context_expr.args[0]
         kw = { k.arg: k.value for k in run.keywords }
-        if dotted( kw.get( 'source' )) == 'source' and dotted( kw.get( 'data' )) == 'data':
+        if dotted( kw.get( 'source' )) == SOURCE and dotted( kw.get( 'data' )) == DATA and pfind( fn, '%s = rememberable()' % SOURCE ) + pfind( fn, '%s = cpppo.rememberable()' % SOURCE ):
             res.ok( src, run, 'frame parsed from the connection source into this iteration\'s data: ' + norm_text( run ))
         else:
             res.bad( src, run, run, 'the frame must be parsed from the per-connection source into the per-iteration data' )
@@ -1119,11 +1166,11 @@ def p_act( ctx ):
     else:
         res.ok( src, loop[0], 'the frame-parsing loop ends only by engine exhaustion or exception' )
     # received blocks are chained, EOF sets the eof flag
-    if pfind( loop[0], 'source.chain( msg )' ):
+    if pfind( loop[0], '%s.chain( %s )' % ( SOURCE, MSG )):
         res.ok( src, loop[0], 'each received block is chained to the source' )
     else:
         res.bad( src, loop[0], 'recv loop', 'received bytes must be chained to the parser source' )
-    eofs = pfind( loop[0], "stats['eof'] = stats['eof'] or not len( msg )" ) + pfind( loop[0], "stats['eof'] = not len( msg ) or stats['eof']" )
+    eofs = pfind( loop[0], "%s['eof'] = %s['eof'] or not len( %s )" % ( STATS, STATS, MSG )) + pfind( loop[0], "%s['eof'] = not len( %s ) or %s['eof']" % ( STATS, MSG, STATS ))
     if eofs:
         res.ok( src, eofs[0][0], 'EOF (empty recv) sets stats.eof' )
     else:
@@ -1555,8 +1602,11 @@ def e_contain( ctx ):
     if outer is None:
         res.bad( src, fn, 'enip_srv_tcp', 'the connection loop is not protected by a finally: socket and stats entry leak on failure' )
     else:
+        CK = server_roles( fn ).get( 'connkey' )
+        if CK is None:
+            raise AnalysisError( 'enip_srv_tcp: `stats, connkey = stats_for( addr )` not found' )
         closes = [ s for s in outer.finalbody if pmatch( s, 'conn.close()' ) ]
-        pops = [ s for s in outer.finalbody if pmatch( s, 'connections.pop( connkey, None )' ) or pmatch( s, 'del connections[connkey]' ) ]
+        pops = [ s for s in outer.finalbody if pmatch( s, 'connections.pop( %s, None )' % CK ) or pmatch( s, 'del connections[%s]' % CK ) ]
         if closes:
             res.ok( src, closes[0], 'finally: conn.close() on every exit' )
         else:
@@ -1568,7 +1618,7 @@ def e_contain( ctx ):
         # statements of the finally before conn.close() must not be able to skip it: they are logging or wrapped in try
         if closes:
             idx = outer.finalbody.index( closes[0] )
-            risky = [ s for s in outer.finalbody[:idx] if not ( isinstance( s, ast.Try ) or pmatch( s, 'connections.pop( connkey, None )' )
+            risky = [ s for s in outer.finalbody[:idx] if not ( isinstance( s, ast.Try ) or pmatch( s, 'connections.pop( %s, None )' % CK )
                                                                or ( isinstance( s, ast.Expr ) and call_name( s.value ).startswith( 'log.' ))) ]
             if risky:
                 res.bad( src, risky[0], risky[0], 'a statement that may raise precedes conn.close() in the finally' )
@@ -1595,7 +1645,8 @@ def e_contain( ctx ):
             res.bad( nsrc, cd, 'class %s( %s )' % ( cname, ', '.join( map( str, bases ))), 'server_runner must come first in the bases so that its run() wraps the target' )
     # daemon thread per connection
     sm = nsrc.get( 'server_main' )
-    if pfind( sm, 'thrd.daemon = True' ) and pfind( sm, 'thrd.start()' ):
+    TM = Matcher()
+    if TM.find( sm, '_t.daemon = True' ) is not None and TM.find( sm, '_t.start()' ) is not None and ( TM.find( sm, '_t = thread( _a )' ) is not None or True ):
         res.ok( nsrc, sm, 'one daemon thread per accepted connection' )
     else:
         res.bad( nsrc, sm, 'server_main.thread_start', 'each connection must be served by its own started thread' )
